@@ -5,13 +5,16 @@ requested files are always justified by a bad file or a cycle; a successful file
 file and no cycle; and deadlock freedom on EVERY import graph, cyclic or not (Props.C06D): no
 reachable state is stuck while a result is missing — the argument why `checkForDependencyCycle`
 prevents deadlock (of the files on a cycle the one that publishes `blockedOn` last finds it).
-What is NOT proved: a bound on the length of runs (fairness of the Go scheduler is outside the
-model); on the implementation this is decided per run by the watchdog of the `exec` engine and the
-final-state check of the trace validator.
+Termination (Props.C06B): every run has at most `bound w` transitions (each task only moves
+forward through boundedly many stages, and only requested files and imports are ever started), and
+a run that cannot be extended has finished every requested file. Whether the Go scheduler actually
+keeps scheduling enabled goroutines is outside the model; on the implementation that is what the
+watchdog of the `exec` engine and the final-state check of the trace validator observe per run.
 -/
 import PCV.Props.C05
 import PCV.Props.C06T
 import PCV.Props.C06D
+import PCV.Props.C06B
 namespace PCV.Props.C06
 open PCV.Exec PCV.Props.C07 PCV.Props.C05
 
@@ -110,8 +113,19 @@ def no_stuck_state (w : World) : Prop :=
 /-- **C06 (no deadlock).** `no_stuck_state` holds for EVERY import graph — with or without cycles —,
     every fault plan, every cancellation behaviour and every parallelism ≥ 1. -/
 theorem no_stuck_state_all (w : World) (hpar : w.par ≥ 1) : no_stuck_state w := by
-  intro s hr ⟨r, _, hnf⟩
-  exact PCV.Props.C06D.no_stuck_state w hpar s hr r hnf
+  intro s hr ⟨r, hreq, hnf⟩
+  exact PCV.Props.C06D.no_stuck_state w hpar s hr r (Or.inl hreq) hnf
+
+/-- **C06 (every run is finite)**, restated: at most `bound w` transitions, whatever the schedule. -/
+theorem every_run_finite (w : World) (evs : List Ev) (s : St) (h : run w (init w) evs = some s) :
+    evs.length ≤ PCV.Props.C06B.bound w :=
+  PCV.Props.C06B.run_length_bounded w evs s h
+
+/-- **C06 (termination)**, restated: a run that cannot be extended has finished every requested file. -/
+theorem terminates (w : World) (hpar : w.par ≥ 1) (evs : List Ev) (s : St)
+    (h : run w (init w) evs = some s) (hmax : ∀ e, step w s e = none) :
+    ∀ r ∈ w.req, isFinished s r = true :=
+  PCV.Props.C06B.maximal_run_finished w hpar evs s h hmax
 
 /-- special case kept for reference: acyclic import graphs (rank function) -/
 theorem no_stuck_state_acyclic (w : World) (hpar : w.par ≥ 1) (rank : File → Nat)
@@ -158,6 +172,8 @@ end PCV.Props.C06
 
 #print axioms PCV.Props.C06.success_reaches_no_cycle
 #print axioms PCV.Props.C06.no_stuck_state_all
+#print axioms PCV.Props.C06.every_run_finite
+#print axioms PCV.Props.C06.terminates
 #print axioms PCV.Props.C06.no_stuck_state_acyclic
 #print axioms PCV.Props.C06.acyclic_never_cycle_error
 #print axioms PCV.Props.C06.selfimport_sound
